@@ -1,3 +1,5 @@
+#[cfg(feature = "iggy_verif")]
+use iggy::verif::tokio;
 use crate::state::system::PartitionState;
 use crate::streaming::partitions::partition::Partition;
 use crate::streaming::partitions::COMPONENT;
